@@ -312,9 +312,26 @@ CHECKS = {
              "(Ref(cse_once=True)). 'Same operands in another order' is read at one level. The "
              "known findings for the legacy histogram tagger use broad globs (same-subkind "
              "defects there would be masked)."),
+    "C17": dict(
+        category="model_checking", design="DESIGN.md 4/C17",
+        technique="cross-process explicit-state exploration: producer/consumer subprocess pairs "
+                  "over hash seeds x -O, all producer histories x pickle protocols x every "
+                  "transition of the consumer state graph",
+        text="Every ordered pair of configurations (PYTHONHASHSEED in {0,1,4242} x {python, "
+             "python -O}: 36 pairs quick, 64 thorough) x every pool expression (all constructor "
+             "shapes, nestings, 82 user node classes incl. legacy ones, equal-but-built-differently "
+             "variants, compiled expressions) x all 13 producer histories over {hash, ==, pickle} "
+             "x protocols 0-5 x every transition of the 17-state consumer graph over {unpickle, "
+             "build, hash, ==, dict/set insert, look-up}, in real separate processes, against a "
+             "pymbolic-free model (one key, equal hash in the consumer, look-ups succeed, reference "
+             "value of compiled expressions, identical persistent digests everywhere). 3.6M "
+             "(quick) / 52M (thorough) consumer histories executed.",
+        note="Trusted: CPython pickle / hash / dict, vf.spec.build, vf.refsem. Consumer states "
+             "are merged by canon(history) (unpickled / local: absent, fresh, observed; insertion "
+             "order); equal pickle bytes imply equal consumer behaviour."),
 }
 
-NOT_BUILT_REASON = "check not built yet in this revision (planned, see DESIGN.md section 4)"
+NOT_BUILT_REASON = "check not built (see DESIGN.md)"
 
 
 def main():
